@@ -1407,19 +1407,71 @@ func ruleLineComplete(c *Ctx) {
 }
 
 // ruleWSSpec: see WS-SPEC.
+// staticReach: module functions reachable from the entries through static calls and directly called closures only
+// (no calls through function-valued table entries or interfaces).
+func staticReach(p *Program, entries []*ssa.Function) map[*ssa.Function]bool {
+	seen := map[*ssa.Function]bool{}
+	var visit func(f *ssa.Function)
+	visit = func(f *ssa.Function) {
+		if f == nil || seen[f] || f.Blocks == nil || !p.InModule(f) {
+			return
+		}
+		seen[f] = true
+		for _, g := range withAnons(f) {
+			if g != f {
+				seen[g] = true
+			}
+			eachInstr(g, func(in ssa.Instruction) {
+				if ci, ok := in.(ssa.CallInstruction); ok {
+					if cal := ci.Common().StaticCallee(); cal != nil {
+						visit(cal)
+					}
+				}
+			})
+		}
+	}
+	for _, f := range entries {
+		visit(f)
+	}
+	return seen
+}
+
+// ruleWSSpec for C01: the functions that decide lines, blank lines and the gaps between root blocks.
 func ruleWSSpec(c *Ctx) {
-	c.Rule("WS-SPEC", "No function on the parse path (reachable from Parse, NextBlock, Rewrite, Extract) applies a Unicode-white-space function (strings/bytes TrimSpace, Fields, unicode.IsSpace) to document text: blank lines, gaps between root blocks and label white space are defined by space, tab, LF and CR only; the single spec-mandated Unicode classification (flanking) goes through isUnicodeWhitespace, which C15 checks.")
 	p := c.P
-	e := newEFF(p)
 	var entries []*ssa.Function
-	for _, f := range []*ssa.Function{p.Func("Parse"), p.Method("BlockParser", "NextBlock"), p.Method("InlineParser", "Rewrite"), p.Method("ReferenceMap", "Extract")} {
+	for _, f := range []*ssa.Function{p.Method("BlockParser", "NextBlock")} {
 		if f != nil {
 			entries = append(entries, f)
 		}
 	}
-	reach := e.reachableFrom(entries)
+	ruleWSSpecOver(c, "No function that splits the input into lines, blank lines and root blocks (reachable from NextBlock through static calls: the block rules, which are called through their tables, are C15's) applies a Unicode-white-space function (strings/bytes TrimSpace, Fields, unicode.IsSpace, …) to document text: blank lines and the gaps between root blocks are defined by space, tab, LF and CR only.", staticReach(p, entries), 8)
+}
+
+// ruleWSSpecRecognisers for C15: the block rules and the line recognisers they call.
+func ruleWSSpecRecognisers(c *Ctx) {
+	p := c.P
+	var entries []*ssa.Function
+	entries = append(entries, blockStartFuncs(p)...)
+	for _, e := range blockRulesTable(p) {
+		// the start and continuation rules; what happens when a block is closed (reference definitions) is C12's
+		if e.match != nil {
+			entries = append(entries, e.match)
+		}
+	}
+	ruleWSSpecOver(c, "No block start or continuation rule and no line recogniser it calls (static call closure of the blockStarts entries and the blockRules match functions) applies a Unicode-white-space function to the line: CommonMark's line-level white space is space and tab (and the line ending), so form feed, NBSP, NEL … are content — `bytes.TrimSpace` on a fence's info string, for instance, changes which lines open or close a code block.", staticReach(p, entries), 8)
+}
+
+func ruleWSSpecOver(c *Ctx, text string, reach map[*ssa.Function]bool, minFuncs int) {
+	c.Rule("WS-SPEC", text)
+	p := c.P
 	n, bad := 0, 0
+	var fns []*ssa.Function
 	for fn := range reach {
+		fns = append(fns, fn)
+	}
+	sort.Slice(fns, func(i, j int) bool { return fns[i].String() < fns[j].String() })
+	for _, fn := range fns {
 		if !p.InModule(fn) {
 			continue
 		}
@@ -1437,10 +1489,10 @@ func ruleWSSpec(c *Ctx) {
 		})
 	}
 	if bad == 0 {
-		c.OK("WS-SPEC", "parse-path", token.NoPos, fmt.Sprintf("%d parse-path functions, none applies a Unicode-white-space function", n))
+		c.OK("WS-SPEC", "scope", token.NoPos, fmt.Sprintf("%d functions in scope, none applies a Unicode-white-space function", n))
 	}
-	if n < 60 {
-		c.Undecided("WS-SPEC", "instance-count", token.NoPos, fmt.Sprintf("only %d parse-path functions reached", n))
+	if n < minFuncs {
+		c.Undecided("WS-SPEC", "instance-count", token.NoPos, fmt.Sprintf("only %d functions in scope", n))
 	}
 }
 
